@@ -195,6 +195,13 @@ class Model:
             return None
         return self.classdefs.get((c["file"], c["name"]))
 
+    def class_loc(self, key):
+        cd = self.classdef(key)
+        c = self.cls(key)
+        if cd is None or not c["file"]:
+            return None
+        return "%s:%s" % (self.rel(c["file"]), cd.lineno)
+
     # ------------------------------------------------------------------ names
     def resolve_global(self, modname, name):
         """What a global name denotes in a module (from the introspection snapshot)."""
